@@ -50,6 +50,28 @@ pub fn body_refs(f: &LocalFunction) -> Vec<(String, usize)> {
     c.refs
 }
 
+/// ids of the functions that some body names through `ref.func` (they must stay declared: exported, or named by an
+/// element segment or a global initialiser, or the output does not validate -- deleting the last declaration is not a
+/// well-formed edit)
+pub fn ref_func_targets(m: &Module) -> Vec<usize> {
+    struct C(Vec<usize>);
+    impl<'a> Visitor<'a> for C {
+        fn visit_ref_func(&mut self, i: &walrus::ir::RefFunc) {
+            if !self.0.contains(&i.func.index()) {
+                self.0.push(i.func.index());
+            }
+        }
+    }
+    let mut c = C(vec![]);
+    for f in m.funcs.iter() {
+        if let FunctionKind::Local(lf) = &f.kind {
+            dfs_in_order(&mut c, lf, lf.entry_block());
+        }
+    }
+    c.0.sort();
+    c.0
+}
+
 /// high-water marks of ids per space, so that trailing dead ids stay visible
 #[derive(Default, Clone)]
 pub struct High {
